@@ -165,7 +165,7 @@ class VirtRig:
     hangs_seen = 0
 
     def __init__(self, cfg: dict, schedule: list, *, shape_seed: int = 0, beh: Optional[dict] = None,
-                 int_lines: Optional[list] = None, count_lines: bool = False, storage=None, default_policy: str = 'finish',
+                 int_lines: Optional[list] = None, count_lines: bool = False, storage=None, prior: Optional[list] = None, default_policy: str = 'finish',
                  max_events: int = 4000):
         self.cfg, self.schedule = cfg, [list(x) for x in schedule]
         self.pos = 0
@@ -189,6 +189,7 @@ class VirtRig:
         self.round = 0
         self.pending_int: Optional[list] = None
         self.count_lines = count_lines
+        self.prior = prior or []
         self.int_lines = int_lines   # line-boundary injection: list of global line-event indices
         self.line_count = 0
         self.in_worker = 0
@@ -466,6 +467,14 @@ class VirtRig:
             D.prepare_storage(cfg, storage, self.shape_seed)
         built = D.Built(cfg, self.shape_seed, beh=self.beh)
         req = built.requested()
+        if self.prior:
+            # an earlier, unrelated run_tasks call on the very same task *instances* (another Lab, no storage, another
+            # epoch): nothing of it may leak into the call under observation
+            try:
+                prior_lab = labtech.Lab(storage=None, context=D.lab_context(5, cfg['n']), runner_backend='serial', notebook=False)
+                prior_lab.run_tasks([built.make(t) for t in self.prior], disable_progress=True, disable_top=True)
+            except BaseException:   # noqa
+                pass
         self._runner = None
         rig = self
 
